@@ -170,7 +170,16 @@ Print Assumptions fold_sound.
    built from the facts translate/gen_emit.py reads from the source on every
    run) on the stack machine of Cond/Machine.v.
 
-   emit_correct (partial: the loop-free part [frag1] of the fragment; the
+   The tie of that model to the real emitter is exact: for every generated
+   rule of the fragment, the WebAssembly decoded from the module written by
+   Compiler::emit_wasm_file equals [Emit.emit_condition] instruction by
+   instruction (Cond/Wasm.v, checked by K in Cond/Check.v), `and` / `or` as
+   the n-ary nodes the IR holds.
+
+   emit_correct (partial: the part [frag1] of the fragment without for-loops -
+   it includes the n-ary `and` / `or`, `with`, and `any / all / N of <set>`
+   with N computed at run time, i.e. the calls of pat_range_match /
+   check_for_pattern_match over the runs of consecutive pattern ids; the
    full statement is EmitProofs.emit_correct_statement): for every buffer,
    match lists, rule verdicts and well-typed external variables, the code
    emitted for a condition, started in any state whose filesize global holds
